@@ -645,13 +645,13 @@ class Path(Expression):
                     buf.append(f"[{_string_repr(segment)}]")
                 elif index:
                     buf.append(f".{segment}")
-                elif (
-                    not nested
-                    and len(self.path) == 1
-                    and segment in RESERVED_WORDS
+                elif not nested and (
+                    (len(self.path) == 1 and segment in RESERVED_WORDS)
+                    or segment[0].isspace()
                 ):
                     # On its own, a reserved word would not be read as a variable.
-                    # Inside brackets it is.
+                    # Inside brackets it is. A name may start with Unicode white
+                    # space (U+00A0, U+2028 ...), which `{{` would swallow.
                     buf.append(f"[{_string_repr(segment)}]")
                 else:
                     buf.append(segment)
